@@ -108,7 +108,12 @@ fn judge(cfg: &DltFilterConfig, by_ref: bool, s: &MsgShape, loc: &mut Local) {
     let filt = catch(|| dlt_message(&input, Some(&processed), false).map(|(rest, pm)| (rest.len(), pm)));
     let plain_msg = match plain {
         Ok(Ok((2, ParsedMessage::Item(pm)))) => pm,
-        other => panic!("C09 harness: unfiltered parse of a universe message failed: {:?}", other.map(|r| r.map(|x| x.0))),
+        // the relation is stated against the unfiltered parse; where that one does not return the
+        // (well-formed) message there is nothing to compare with - C01/C02's matter, not judged here
+        _ => {
+            loc.outcome("unfiltered parse does not return the message (not judged)");
+            return;
+        }
     };
     let payload_len = m.payload_len as usize;
     match filt {
@@ -258,7 +263,10 @@ pub fn run(ctx: &Ctx) {
             let desc = format!("storage ECU {:?}, header ECU {:?}, ecu_ids {:?}, app_ids {:?}, type {:?}; message {}", st_ecu, header_ecu, cfg.ecu_ids, cfg.app_ids, t3[c[3]], hex(&bytes));
             let plain = match catch(|| dlt_message(&bytes, None, true)) {
                 Ok(Ok((_, ParsedMessage::Item(pm)))) => pm,
-                other => panic!("C09 harness: unfiltered parse failed: {:?}", other.map(|r| r.map(|_| ()))),
+                _ => {
+                    loc.outcome("unfiltered parse does not return the message (not judged)");
+                    return;
+                }
             };
             match catch(|| dlt_message(&bytes, Some(&processed), true).map(|(rest, pm)| (rest.len(), pm))) {
                 Ok(Ok((0, ParsedMessage::FilteredOut(n)))) if expect_drop && n == m.payload_len as usize => loc.outcome("dropped as stated"),
@@ -330,7 +338,10 @@ pub fn run(ctx: &Ctx) {
             loc.state(i, true);
             let plain = match catch(|| dlt_message(&bytes, None, st).map(|(rest, pm)| (rest.len(), pm))) {
                 Ok(Ok((5, ParsedMessage::Item(pm)))) => pm,
-                other => panic!("C09 harness: unfiltered parse of a seed failed: {:?} seed {} storage {:?} blank {} bytes {}", other.map(|r| r.map(|x| x.0)), c[0], storages[c[1]], c[3], hex_short(&bytes)),
+                _ => {
+                    loc.outcome("unfiltered parse does not return the message (not judged)");
+                    return;
+                }
             };
             let desc = || format!("filter [{}], storage header {:?}, message {}", name, storages[c[1]], hex_short(&bytes));
             match catch(|| dlt_message(&bytes, Some(f), st).map(|(rest, pm)| (rest.len(), pm))) {
